@@ -174,6 +174,8 @@ struct Engine {
   virtual void init(const std::string& /*tier*/) {}
   // optional: enumerated (non-random) part; index space [0,count)
   virtual uint64_t enumerated_count(const std::string& /*tier*/) { return 0; }
+  // optional: a worker process retires itself after this many runs (engines whose subject leaks by design)
+  virtual long recycle_after() { return 0; }
 };
 
 int driver_main(int argc, char** argv, Engine& e);
